@@ -4,8 +4,28 @@
    computes it; no vertex twice; stateful predecessor and every window producer strictly earlier in (partition, generation) order; supervisor
    vertex p closes partition p; at most one slot of a kind per generation).  apply_window itself is specified for every graph. *)
 From Coq Require Import List Arith ZArith Bool.
-From Rex Require Import CompiledModel WindowSpec WindowPush.
+From Rex Require Import CompiledModel WindowSpec WindowPush ScheduleSpec.
 Open Scope Z_scope.
+
+(* soundness of the extracted validator: an accepted schedule satisfies ValidSchedule (every running slot carries a vertex of its own kind with that vertex's seq, times and window; no vertex twice; predecessor step and every window producer strictly earlier; supervisor step p closes partition p; one slot per kind and generation) *)
+Theorem C07_check_schedule_sound : forall I : inst, check_schedule I = true -> ValidSchedule I.
+Proof. exact @check_schedule_sound. Qed.
+Print Assumptions C07_check_schedule_sound.
+
+(* every message producer in a step's window runs strictly before that step *)
+Theorem C07_producer_before_consumer : forall I : inst, ValidSchedule I -> forall (n : nat) (k : Z) (p g : nat) (c : cell) (cw : nat * list wentry) (so a b : Z), In (n, k, p, g, c) (run_cells I) -> In cw (combine (ins_of I n) (c_wins c)) -> In (so, a, b) (snd cw) -> 0 <= so -> exists q : nat * nat, find_cell I (k_out (conn I (fst cw))) so = Some q /\ lex_lt q (p, g) = true.
+Proof. exact @producer_before_consumer. Qed.
+Print Assumptions C07_producer_before_consumer.
+
+(* consecutive steps of a node run in sequence order *)
+Theorem C07_node_steps_in_seq_order : forall I : inst, ValidSchedule I -> forall (n : nat) (k : Z) (p g : nat) (c : cell), In (n, k, p, g, c) (run_cells I) -> 0 < k -> exists q : nat * nat, find_cell I n (k - 1) = Some q /\ lex_lt q (p, g) = true.
+Proof. exact @node_steps_in_seq_order. Qed.
+Print Assumptions C07_node_steps_in_seq_order.
+
+(* supervisor step p closes partition p *)
+Theorem C07_supervisor_closes_partition : forall I : inst, ValidSchedule I -> forall (k : Z) (p g : nat) (c : cell), In (i_sup I, k, p, g, c) (run_cells I) -> Z.of_nat p = k /\ g = (i_ngen I - 1)%nat.
+Proof. exact @supervisor_closes_partition. Qed.
+Print Assumptions C07_supervisor_closes_partition.
 
 (* the window of receiver step k computed by apply_window = the last `window` of (defaults ++ messages with valid seq_in <= k), oldest first, provided seq_in is non-decreasing along the edge array (invalid entries last) *)
 Theorem C07_apply_window_spec : forall (I : inst) (c : nat), Sorted.StronglySorted Z.le (map si_of (nth c (i_edges I) nil)) -> win_model I c = map (fun v : vertex => lastn (k_win (conn I c)) (repeat (-1, 0, 0) (k_win (conn I c)) ++ map (entry_of I c) (filter (good (v_seq v)) (nth c (i_edges I) nil)))) (verts I (k_in (conn I c))).
